@@ -460,7 +460,10 @@ def split_family(seed, n_seq):
                    r'([] <> q) /\ ((<> [] p) \/ ([] <> (x > 0)))', r'((<> [] p) \/ ([] <> (x > 0))) /\ ([] <> q)',
                    r'([] <> p) \/ ([] <> q)', r'(<> [] p) \/ ([] <> q) \/ ([] <> (x > 0))',
                    r'((<> [] p) \/ ([] <> q)) /\ ((<> [] (x > 0)) \/ ([] <> q))',
-                   r'(<> [] p) /\ ([] <> q)']
+                   r'(<> [] p) /\ ([] <> q)',
+                   # next-state operators inside arithmetic, outside `[]`
+                   r"(x' + 1 > y) /\ ([] p) /\ ([] <> q)", r'[] <> ((X x) + 1 < 2)', r"<> [] (x' * 2 = y)",
+                   r"(y - x' = 0)", r"([] p) /\ ([] <> (y < (X x) - 1))", r"(x = 1) /\ (<> [] (2 * (y') # x) \/ [] <> q)"]
         for text in outside:
             n += 1
             try:
